@@ -142,6 +142,8 @@ package parse
 //@   loop 1 invariant[F,C15] wfU8(l.buf) ==> lbEnds(l.buf, 0, l.start) == lbEnds(l.buf, 0, l.pos) || l.start == l.pos
 
 //@ func positionContext
+// non-printable characters are the ones unicode.IsGraphic rejects (categories L, M, N, P, S, Zs only): that test is the one applied
+//@   callsite unicode.IsGraphic[F,C15] @printable-test: true
 //@   requires[S] l != nil && bufInv(l) && l.start <= l.pos
 //@   requires[F] @line: wfU8(l.buf) ==> line == 1 + lbEnds(l.buf, 0, l.pos)
 //@   loop 1 invariant bufInv(l) && l.start <= l.pos
@@ -169,6 +171,8 @@ package parse
 // NewErrorLexer renders the position of the cursor. It reads l through l.Bytes(), whose capacity is clipped,
 // so the private Input built by Position copies the bytes instead of borrowing a terminator slot.
 //@ func NewErrorLexer
+// the position is computed over the whole input (the context is a whole line of it) at the cursor
+//@   callsite parse.NewError[F,C15] @whole-input: rlen(arg0) == len(l.buf) - 1 && arg1 == l.pos
 //@   trusted
 //@   verifybody F
 //@   pure
@@ -360,6 +364,8 @@ package parse
 
 // ---- whitespace / entity normalisation (C17): memory safety, in-place, never longer
 //@ func ReplaceMultipleWhitespace
+// when the only collapsed run is the leading one, its single byte is moved in front of the text that follows
+//@   ensures[F,C17,perpath,local] @leading-run-moved: j == 1 ==> result[0] == b[0]
 //@   ensures[S]  len(result) <= len(b) && (within(result, b) || len(result) == 0)
 // every run of white space is rewritten to a single space, or to a newline if it contained a line break: after an iteration
 // that started on a white-space byte, that byte holds ' ' or '\n' (whatever the run's length; compaction never writes there)
@@ -427,6 +433,7 @@ package parse
 //@   loop 1 decreases 2*len(b) - i
 
 //@ func ReplaceMultipleWhitespaceAndEntities
+//@   ensures[F,C17,perpath,local] @leading-run-moved: j == 1 ==> result[0] == b#1[0]
 //@   mapspec entitiesMap: ok ==> len(value) <= len(key) + 2
 //@   mapspec revEntitiesMap: ok ==> len(value) <= n && len(value) >= 2 && value[0] == '&'
 //@   ensures[S,C17] @never-longer: len(result) <= len(b)
